@@ -23,7 +23,8 @@ Proof. exact powd_Dual2Vec. Qed.
 Theorem C09_powd_HyperDualVec : forall x n : HyperDualVec T, m_powd x n = m_exp (m_ln x * n).
 Proof. exact powd_HyperDualVec. Qed.
 End Powd.
-From ND Require Import Tactics C01_towers C01_faa C09_proofs C09_faa.
+From ND Require Import Tactics C01_towers C01_faa C09_proofs C09_faa C09_agree.
+From ND Require Import Prog C03_proofs C09_three.
 Local Open Scope R_scope.
 Theorem C09_tower_powi_general : forall n x, x <> 0 -> (-2147483645 <= n <= 2147483647)%Z ->
   (n <> 0 /\ n <> 1 /\ n <> 2)%Z -> is_tower (g_powi n) (tw3 (fun d => m_powi d n)) x.
@@ -90,6 +91,67 @@ Theorem C09_faa_HyperDualVec_powf : forall i j, forall (n : R) (x : HyperDualVec
   part_HyperDualVec (m_powf x n) S = faa (tw3 (fun d => m_powf d n) (HyperDualVec_f_re x)) (part_HyperDualVec x) S.
 Proof. exact faa_HyperDualVec_powf. Qed.
 
+(* the power functions agree where their domains overlap: positive real part, integer exponent -- powi(n) and powf(n as float) have the same parts
+   in every type (both towers are derivative towers of x^n on (0, inf), where powerRZ x n = Rpower x n, and such a tower is unique) *)
+Theorem C09_tw_powi_powf : forall (n : Z) (x : R), 0 < x -> (-2147483645 <= n <= 2147483647)%Z ->
+  forall k, tw3 (fun d => m_powi d n) x k = tw3 (fun d => m_powf d (IZR n)) x k.
+Proof. exact tw_powi_powf. Qed.
+Theorem C09_agree_powi_powf_Dual : forall (n : Z) (x : Dual R), 0 < Dual_f_re x -> (-2147483645 <= n <= 2147483647)%Z -> forall S, In S idx_Dual ->
+  part_Dual (m_powi x n) S = part_Dual (m_powf x (IZR n)) S.
+Proof. exact agree_powi_powf_Dual. Qed.
+Theorem C09_agree_powi_powf_Dual2 : forall (n : Z) (x : Dual2 R), 0 < Dual2_f_re x -> (-2147483645 <= n <= 2147483647)%Z -> forall S, In S idx_Dual2 ->
+  part_Dual2 (m_powi x n) S = part_Dual2 (m_powf x (IZR n)) S.
+Proof. exact agree_powi_powf_Dual2. Qed.
+Theorem C09_agree_powi_powf_Dual3 : forall (n : Z) (x : Dual3 R), 0 < Dual3_f_re x -> (-2147483645 <= n <= 2147483647)%Z -> forall S, In S idx_Dual3 ->
+  part_Dual3 (m_powi x n) S = part_Dual3 (m_powf x (IZR n)) S.
+Proof. exact agree_powi_powf_Dual3. Qed.
+Theorem C09_agree_powi_powf_HyperDual : forall (n : Z) (x : HyperDual R), 0 < HyperDual_f_re x -> (-2147483645 <= n <= 2147483647)%Z -> forall S, In S idx_HyperDual ->
+  part_HyperDual (m_powi x n) S = part_HyperDual (m_powf x (IZR n)) S.
+Proof. exact agree_powi_powf_HyperDual. Qed.
+Theorem C09_agree_powi_powf_HyperHyperDual : forall (n : Z) (x : HyperHyperDual R), 0 < HyperHyperDual_f_re x -> (-2147483645 <= n <= 2147483647)%Z -> forall S, In S idx_HHD ->
+  part_HHD (m_powi x n) S = part_HHD (m_powf x (IZR n)) S.
+Proof. exact agree_powi_powf_HyperHyperDual. Qed.
+Theorem C09_agree_powi_powf_DualVec : forall i, forall (n : Z) (x : DualVec R), 0 < DualVec_f_re x -> (-2147483645 <= n <= 2147483647)%Z -> forall S, In S (idx_DualVec i) ->
+  part_DualVec (m_powi x n) S = part_DualVec (m_powf x (IZR n)) S.
+Proof. exact agree_powi_powf_DualVec. Qed.
+Theorem C09_agree_powi_powf_Dual2Vec : forall i j, forall (n : Z) (x : Dual2Vec R), wf_Dual2Vec x -> 0 < Dual2Vec_f_re x -> (-2147483645 <= n <= 2147483647)%Z -> forall S, In S (idx_Dual2Vec i j) ->
+  part_Dual2Vec (m_powi x n) S = part_Dual2Vec (m_powf x (IZR n)) S.
+Proof. exact agree_powi_powf_Dual2Vec. Qed.
+Theorem C09_agree_powi_powf_HyperDualVec : forall i j, forall (n : Z) (x : HyperDualVec R), wf_HyperDualVec x -> 0 < HyperDualVec_f_re x -> (-2147483645 <= n <= 2147483647)%Z -> forall S, In S (idx_HyperDualVec i j) ->
+  part_HyperDualVec (m_powi x n) S = part_HyperDualVec (m_powf x (IZR n)) S.
+Proof. exact agree_powi_powf_HyperDualVec. Qed.
+
+(* the three power functions, repeated multiplication / division and exp(n ln x) agree as NUMBERS of the five scalar types (every part at once):
+   mul_prog n is x * ... * x (n factors from the lifted one); pw_ok n r is (n in {0,1,2}) or (r <> 0 and n in the i32 range of the code);
+   consequences of C03_denotational (the derivative parts depend on the real function alone) *)
+Theorem C09_mul_prog_meaning : forall n, mul_prog (S n) = PBin B_mul (mul_prog n) (PVar 0) /\ mul_prog 0 = PConst 1.
+Proof. exact (fun n => conj eq_refl eq_refl). Qed.
+Theorem C09_powers_agree_Dual :
+  (forall (X : Dual R) n, pw_ok (Z.of_nat n) (Dual_f_re X) -> (m_powi X (Z.of_nat n : Z) : Dual R) = eval (X :: nil) (mul_prog n)) /\
+  (forall (X : Dual R) n, Dual_f_re X <> 0 -> pw_ok (- Z.of_nat n) (Dual_f_re X) -> (m_powi X (- Z.of_nat n : Z)%Z : Dual R) = eval (X :: nil) (PBin B_div (PConst 1) (mul_prog n))) /\
+  (forall (X : Dual R) z, 0 < Dual_f_re X -> pw_ok z (Dual_f_re X) -> (m_powi X (z : Z) : Dual R) = m_powd X (ofF (IZR z) : Dual R)).
+Proof. exact powers_agree_Dual. Qed.
+Theorem C09_powers_agree_Dual2 :
+  (forall (X : Dual2 R) n, pw_ok (Z.of_nat n) (Dual2_f_re X) -> (m_powi X (Z.of_nat n : Z) : Dual2 R) = eval (X :: nil) (mul_prog n)) /\
+  (forall (X : Dual2 R) n, Dual2_f_re X <> 0 -> pw_ok (- Z.of_nat n) (Dual2_f_re X) -> (m_powi X (- Z.of_nat n : Z)%Z : Dual2 R) = eval (X :: nil) (PBin B_div (PConst 1) (mul_prog n))) /\
+  (forall (X : Dual2 R) z, 0 < Dual2_f_re X -> pw_ok z (Dual2_f_re X) -> (m_powi X (z : Z) : Dual2 R) = m_powd X (ofF (IZR z) : Dual2 R)).
+Proof. exact powers_agree_Dual2. Qed.
+Theorem C09_powers_agree_Dual3 :
+  (forall (X : Dual3 R) n, pw_ok (Z.of_nat n) (Dual3_f_re X) -> (m_powi X (Z.of_nat n : Z) : Dual3 R) = eval (X :: nil) (mul_prog n)) /\
+  (forall (X : Dual3 R) n, Dual3_f_re X <> 0 -> pw_ok (- Z.of_nat n) (Dual3_f_re X) -> (m_powi X (- Z.of_nat n : Z)%Z : Dual3 R) = eval (X :: nil) (PBin B_div (PConst 1) (mul_prog n))) /\
+  (forall (X : Dual3 R) z, 0 < Dual3_f_re X -> pw_ok z (Dual3_f_re X) -> (m_powi X (z : Z) : Dual3 R) = m_powd X (ofF (IZR z) : Dual3 R)).
+Proof. exact powers_agree_Dual3. Qed.
+Theorem C09_powers_agree_HyperDual :
+  (forall (X : HyperDual R) n, pw_ok (Z.of_nat n) (HyperDual_f_re X) -> (m_powi X (Z.of_nat n : Z) : HyperDual R) = eval (X :: nil) (mul_prog n)) /\
+  (forall (X : HyperDual R) n, HyperDual_f_re X <> 0 -> pw_ok (- Z.of_nat n) (HyperDual_f_re X) -> (m_powi X (- Z.of_nat n : Z)%Z : HyperDual R) = eval (X :: nil) (PBin B_div (PConst 1) (mul_prog n))) /\
+  (forall (X : HyperDual R) z, 0 < HyperDual_f_re X -> pw_ok z (HyperDual_f_re X) -> (m_powi X (z : Z) : HyperDual R) = m_powd X (ofF (IZR z) : HyperDual R)).
+Proof. exact powers_agree_HyperDual. Qed.
+Theorem C09_powers_agree_HyperHyperDual :
+  (forall (X : HyperHyperDual R) n, pw_ok (Z.of_nat n) (HyperHyperDual_f_re X) -> (m_powi X (Z.of_nat n : Z) : HyperHyperDual R) = eval (X :: nil) (mul_prog n)) /\
+  (forall (X : HyperHyperDual R) n, HyperHyperDual_f_re X <> 0 -> pw_ok (- Z.of_nat n) (HyperHyperDual_f_re X) -> (m_powi X (- Z.of_nat n : Z)%Z : HyperHyperDual R) = eval (X :: nil) (PBin B_div (PConst 1) (mul_prog n))) /\
+  (forall (X : HyperHyperDual R) z, 0 < HyperHyperDual_f_re X -> pw_ok z (HyperHyperDual_f_re X) -> (m_powi X (z : Z) : HyperHyperDual R) = m_powd X (ofF (IZR z) : HyperHyperDual R)).
+Proof. exact powers_agree_HyperHyperDual. Qed.
+
 (* the refuted variant the repaired code no longer exhibits: with i32 products the third coefficient wraps already at n = 1292 *)
 Example C09_i32_product_wraps : wrap32 (1292 * 1291 * 1290) <> (1292 * 1291 * 1290)%Z.
 Proof. vm_compute. discriminate. Qed.
@@ -127,5 +189,20 @@ Definition C09_bundle := (@C09_powd_Dual,
   C09_faa_Dual2Vec_powi,
   C09_faa_Dual2Vec_powf,
   C09_faa_HyperDualVec_powi,
-  C09_faa_HyperDualVec_powf).
+  C09_faa_HyperDualVec_powf,
+  C09_tw_powi_powf,
+  C09_agree_powi_powf_Dual,
+  C09_agree_powi_powf_Dual2,
+  C09_agree_powi_powf_Dual3,
+  C09_agree_powi_powf_HyperDual,
+  C09_agree_powi_powf_HyperHyperDual,
+  C09_agree_powi_powf_DualVec,
+  C09_agree_powi_powf_Dual2Vec,
+  C09_agree_powi_powf_HyperDualVec,
+  C09_mul_prog_meaning,
+  C09_powers_agree_Dual,
+  C09_powers_agree_Dual2,
+  C09_powers_agree_Dual3,
+  C09_powers_agree_HyperDual,
+  C09_powers_agree_HyperHyperDual).
 Print Assumptions C09_bundle.
